@@ -85,7 +85,21 @@ def converter_table(ck, prog):
         # unitsToUserUnits
         outs = Interp(prog, ConvHooks(pr)).run(f_uu, [Opaque('input', (), 'str'), ref])
         if unit == '%':
-            exp = [v * ref / 100, v / 100]
+            # a supplied reference is a number; every path must give value * reference / 100 -
+            # also the path on which the reference is zero (it is then substituted: a test of the
+            # reference's truthiness treats 0 as "no reference" and answers value / 100)
+            exp = [v * ref / 100]
+            zero_ref = [o for o in outs if o.kind == 'return' and any(
+                isinstance(c, Cmp) and c.a == ref and c.b == _Sym.const(0) and
+                ((c.op == '!=' and not t) or (c.op == '==' and t)) for c, t in o.state.path)]
+            for o in zero_ref:
+                ok0 = isinstance(o.value, _Sym) and o.value == _Sym.const(0)
+                ck.ob('C12-D1-table', "unitsToUserUnits['%', reference 0]", ok0,
+                      'unitsToUserUnits for a percentage with the supplied reference 0 gives %r; '
+                      'value * reference / 100 is 0 (getLength, the attribute reader, answers 0 '
+                      'for the same text and reference: the two disagree)' % (o.value,),
+                      f_uu.loc(), key="unitsToUserUnits::'%'-zero-reference")
+            outs = [o for o in outs if o not in zero_ref]
         else:
             exp = [v * f] if f is not None else [NONE]
         record('unitsToUserUnits', unit, outs, f_uu, exp, 'value with unit %r' % unit)
